@@ -261,10 +261,16 @@ def run_chain(ctx, idx, rng, tmp):
     import dclab
     from dclab.rtdc_dataset import writer
     n = int(rng.choice([3, 9, 10, 11, 21, 30])) if rng.random() < 0.6 else int(rng.integers(2, 40))
+    big = idx % 16 == 5
+    if big:
+        # a few hundred events of which the exports drop only a few: long runs of consecutive
+        # origin events behind the mapping (longer than any block a reader may fetch at once)
+        n = int(rng.choice([130, 257, 300, 520, 700]))
+        ctx.count("chains_with_long_runs")
     rid = f"mid-{idx:05d}"
     origin = write_origin(tmp / "origin.rtdc", 1, n, rng, rid)
     writer.CHUNK_SIZE_BYTES = int(rng.choice([256, 1024 ** 2]))
-    depth = int(rng.integers(1, 5))
+    depth = int(rng.integers(1, 5)) if not big else int(rng.integers(1, 3))
     cur = tmp / "origin.rtdc"
     root_idx = np.arange(n)
     steps = []
@@ -276,7 +282,7 @@ def run_chain(ctx, idx, rng, tmp):
                 via = "file"
                 m_child = None
                 closers = []
-                hd = int(rng.choice([0, 0, 1, 2]))
+                hd = int(rng.choice([0, 0, 1, 2])) if not big else 0
                 ridx = root_idx
                 for _ in range(hd):
                     mc = rng.random(len(src)) < 0.7
@@ -289,7 +295,7 @@ def run_chain(ctx, idx, rng, tmp):
                     closers.append(src)
                     via = f"hierarchy{hd}"
                 filtered = bool(rng.random() < 0.75)
-                m = rng.random(len(src)) < rng.uniform(0.3, 1.0)
+                m = rng.random(len(src)) < (rng.uniform(0.3, 1.0) if not big else 0.993)
                 if not m.any():
                     m[int(rng.integers(0, len(src)))] = True
                 src.filter.manual[:] = m
